@@ -478,7 +478,7 @@ def ob_offered(chk, cir):
         H.stub('regexp.MatchString', lib.re_match)
         line = z3.String('req.file[pubkeyfile]'); b64 = z3.String('key.base64')
         # the line the client sends: MarshalAuthorizedKey = type name, space, base64 body, newline (x/crypto/ssh contract)
-        B64 = z3.Plus(z3.Union(z3.Range('a', 'z'), z3.Range('A', 'Z'), z3.Range('0', '9'), z3.Re('+'), z3.Re('/')))
+        ALPHA = z3.Union(z3.Range('a', 'z'), z3.Range('A', 'Z'), z3.Range('0', '9'), z3.Re('+'), z3.Re('/'))
         def parse_ok(ex_, st, a, ins):
             return (IfaceV('dyn:sshpub', Opaque('sshpub', term=SV(label), src=line)), SV(''), NILSLICE(), NILSLICE(), nilerr())
         H.stub('golang.org/x/crypto/ssh.ParseAuthorizedKey', parse_ok)
@@ -505,7 +505,35 @@ def ob_offered(chk, cir):
         def on_sign(ex_, p, e): raise PathCut('sink stop')
         ex.on_sign = on_sign
         st, state, w, r = H.mkstate()
-        st.pc += [line == z3.Concat(SV(tname + ' '), b64, SV('\n')), z3.InRe(b64, B64), z3.Length(b64) <= 1024]
+        # length of the SSH wire encoding of the key class (RFC 4253 / 5656 / 8709 framing): the base64 body has exactly 4*ceil(n/3)
+        # characters, the last (3 - n mod 3) mod 3 of them '='
+        def blob_len():
+            if kind == 'ed25519': return [4 + 11 + 4 + 32]
+            if kind == 'ecdsa':
+                cb = {'P-256': 32, 'P-384': 48, 'P-521': 66}[curve]; idn = {'P-256': 'nistp256', 'P-384': 'nistp384', 'P-521': 'nistp521'}[curve]
+                return [4 + len('ecdsa-sha2-' + idn) + 4 + len(idn) + 4 + (1 + 2 * cb)]
+            nb = (bits + 7) // 8
+            # mpint n: a leading zero byte when the top bit is set (always for an exactly bits-long modulus, bits % 8 == 0); e = 65537 or 3 (1..3 bytes)
+            return sorted({4 + 7 + 4 + el + 4 + nb + (1 if bits % 8 == 0 else 0) for el in (1, 3)})
+        alts = []
+        for n_ in blob_len():
+            pad = (3 - n_ % 3) % 3; chars = 4 * ((n_ + 2) // 3)
+            body = z3.Loop(ALPHA, chars - pad, chars - pad)      # a bounded loop keeps the query inside the regex solver (a Length constraint does not)
+            alts.append(z3.InRe(b64, z3.Concat(body, z3.Re('=' * pad)) if pad else body))
+        shape = [line == z3.Concat(SV(tname + ' '), b64, SV('\n')), z3.Or(alts)]
+        # the pattern is decided in a solver query of its own (every line of that shape), so that the bounded-loop regex constraint does not
+        # sit in the path condition of unrelated branch-feasibility queries
+        def match(ex_, s_, a, ins):
+            pat = lib.const_pattern(a[0])
+            if pat is None or not z3.eq(a[1], line): return lib.re_match(ex_, s_, a, ins)
+            R = rx.translate(pat)
+            r1, _m = ex_.model_fresh(shape, z3.Not(z3.InRe(line, R)), 60000)
+            if r1 == 'unsat': s_.ev('pattern', verdict='every line of this shape matches'); return (z3.BoolVal(True), nilerr())
+            r2, _m = ex_.model_fresh(shape, z3.InRe(line, R), 60000)
+            if r2 == 'unsat': s_.ev('pattern', verdict='no line of this shape matches'); return (z3.BoolVal(False), nilerr())
+            if 'unknown' in (r1, r2): raise Unsupported('solver unknown on the key pattern')
+            s_.ev('pattern', verdict='some lines of this shape match'); return (z3.Bool('pattern.matches'), nilerr())
+        H.stub('regexp.MatchString', match)
         paths = ex.run(handler, [state, w, r, z3.String('targetUser'), z3.BitVec('duration', 64)], st); total += len(paths)
         signed = 0
         for p in paths:
@@ -541,7 +569,7 @@ def ob_offered(chk, cir):
         return
     chk.witnesses += nsign
     chk.obligation('offered-keys-certifiable: the SSH key line of every key class the client generates passes the server\'s pattern, parser contract, strength predicate and CA selection (no 4xx); the additional Ed25519 key only needs an Ed25519 CA',
-                   f'client key classes from makeSigners (client SSA): {sorted(map(str, classes))}; server postAuthSSHCertHandler from the server SSA, every base64 body up to 1024 bytes, with/without Ed25519 CA', verdict, paths=total, witness=f'{nsign} signing paths', t=time.time() - t)
+                   f'client key classes from makeSigners (client SSA): {sorted(map(str, classes))}; server postAuthSSHCertHandler from the server SSA, every base64 body of the length the key class serialises to (padding included), with/without Ed25519 CA', verdict, paths=total, witness=f'{nsign} signing paths', t=time.time() - t)
     chk.sample({'obligation': 'offered-keys-certifiable', 'offered': {k: [list(map(str, c)) for c in v] for k, v in offered.items()}})
 
 
